@@ -62,14 +62,14 @@ theorem zerofpr_exit_contract (P : Problem α) (dir : Direction D α) (d0 : D) (
     (hfuel : (run P dir d0 pr stop oot x0 y Sig errz0 gV gS).fuelOut = false) :
     ExitOK P x0 y Sig errz0 (run P dir d0 pr stop oot x0 y Sig errz0 gV gS) := by
   unfold run at hfuel ⊢
-  cases hi : initState P d0 pr x0 gV gS with
+  cases hi : initState P d0 pr stop x0 gV gS with
   | inl t =>
     simp only [hi] at hfuel ⊢
     exact ⟨fun h => absurd h (by simp), fun _ => ⟨rfl, rfl, rfl⟩⟩
   | inr s =>
     simp only [hi] at hfuel ⊢
     exact mainLoop_ok P dir pr stop oot x0 y Sig errz0 _ s
-      (.inr (initState_good P d0 pr x0 gV gS s hi).1) hfuel
+      (.inr (initState_good P d0 pr stop x0 gV gS s hi).1) hfuel
 
 /-- Feasibility: if the problem's prox step maps into `C` (proved for the shipped box / box+ℓ1 /
     unconstrained steps in `Props/C15`), the written-back `x` is in `C`. -/
@@ -118,7 +118,7 @@ theorem zerofpr_x_out_is_final_xhat (P : Problem α) (dir : Direction D α) (d0 
       (run P dir d0 pr stop oot x0 y Sig errz0 gV gS).x = c.xhat ∧
       (run P dir d0 pr stop oot x0 y Sig errz0 gV gS).y = c.yhat := by
   unfold run at hw ⊢
-  cases hi : initState P d0 pr x0 gV gS with
+  cases hi : initState P d0 pr stop x0 gV gS with
   | inl t => simp [hi] at hw
   | inr s =>
     simp only [hi] at hw ⊢
